@@ -48,6 +48,7 @@ def oracle(c, o):
 
 
 SPEC = {
+    "text_fidelity": True,
     "prop_file": "Properties/C16.v",
     "gen": gen,
     "oracle": oracle,
